@@ -1,8 +1,3 @@
-theorem t1 (a b : String) (h : "_old_" ++ a = "_old_" ++ b) : a = b := by
-  have := congrArg String.toList h
-  simp only [String.toList_append] at this
-  exact String.toList_inj.1 (List.append_cancel_left this)
-theorem t2 (a : String) : "_old_" ++ a ≠ a := by
-  intro h
-  have := congrArg String.length h
-  simp [String.length_append] at this
+example : DecidableEq (Option (List (Int × List Nat) × List (String × List Int × String) × Nat × List Int)) := inferInstance
+example : DecidableEq (List (String × List Int × String)) := inferInstance
+example : DecidableEq (List (Int × List Nat) × List (String × List Int × String) × Nat × List Int) := inferInstance
